@@ -9,6 +9,7 @@ package vfpkg
 // injected end-of-stream, stall detection.
 
 import (
+	"errors"
 	"io"
 	"net"
 	"os"
@@ -63,13 +64,16 @@ type vfStreamEnd struct {
 	// eofWithData: the read that hands over the last bytes before the end of the stream reports
 	// io.EOF together with them (n > 0 and io.EOF in one call, as the io.Reader contract allows)
 	eofWithData bool
+	// partialAt >= 0: the transport write with that ordinal takes only partialN bytes and fails (a link
+	// failure in the middle of a write); later writes work again
+	partialAt, partialN int
 }
 
 func vfNewStream() *vfStream {
 	s := &vfStream{monitor: true}
 	s.cond = sync.NewCond(&s.mu)
 	for i := 0; i < 2; i++ {
-		s.ends[i] = &vfStreamEnd{s: s, idx: i, cutAfter: -1, hdrLen: 5}
+		s.ends[i] = &vfStreamEnd{s: s, idx: i, cutAfter: -1, hdrLen: 5, partialAt: -1}
 	}
 	return s
 }
@@ -172,6 +176,18 @@ func (e *vfStreamEnd) writeLocked(p []byte) (int, error) {
 		return 0, &net.OpError{Op: "write", Net: "vf", Err: vfTimeoutErr{}}
 	}
 	o := s.ends[1-e.idx]
+	if e.partialAt >= 0 && e.nWrites-1 == e.partialAt {
+		k := e.partialN
+		if k > len(p) {
+			k = len(p)
+		}
+		e.wrote = append(e.wrote, p[:k]...)
+		if !o.closed && e.edit == nil {
+			e.deliver(p[:k])
+		}
+		s.cond.Broadcast()
+		return k, &net.OpError{Op: "write", Net: "vf", Err: errors.New("vfstream: link failure")}
+	}
 	e.wrote = append(e.wrote, p...)
 	if o.closed {
 		return 0, &net.OpError{Op: "write", Net: "vf", Err: io.ErrClosedPipe}
